@@ -23,8 +23,8 @@ from concurrent.futures import ThreadPoolExecutor
 VERIF = os.path.dirname(os.path.dirname(os.path.abspath(__file__)))
 REPO = os.environ.get("VERIF_REPO", "/repo")
 ENCODE = os.path.join(VERIF, "encode")
-OUT = os.path.join(VERIF, "out")
-EVIDENCE = os.path.join(VERIF, "evidence")
+OUT = os.environ.get("VERIF_OUT_DIR", os.path.join(VERIF, "out"))
+EVIDENCE = os.environ.get("VERIF_EVIDENCE_DIR", os.path.join(VERIF, "evidence"))
 KNOWN_FINDINGS = os.path.join(VERIF, "known_findings.json")
 
 ENV = dict(os.environ)
